@@ -237,3 +237,26 @@ pub proof fn frame_single_zero(msg: Seq<u8>)
     cobs_no_zero(msg);
     assert((cobs(msg) + seq![0u8]).drop_last() =~= cobs(msg));
 }
+
+// run distributes over appending one byte
+pub proof fn lemma_run_snoc(m: M, s: Seq<u8>, d: u8)
+    ensures run(m, s.push(d)) == push(run(m, s), d)
+    decreases s.len()
+{
+    if s.len() == 0 {
+        let one = s.push(d);
+        assert(one.len() == 1 && one[0] == d);
+        assert(one.drop_first() =~= Seq::<u8>::empty());
+        assert(run(push(m, d), one.drop_first()) == push(m, d));
+        assert(run(m, one) == run(push(m, one[0]), one.drop_first()));
+        assert(run(m, s) == m);
+    } else {
+        let sp = s.push(d);
+        assert(sp.len() > 0);
+        assert(run(m, sp) == run(push(m, sp[0]), sp.drop_first()));
+        assert(run(m, s) == run(push(m, s[0]), s.drop_first()));
+        assert(s.push(d).drop_first() =~= s.drop_first().push(d));
+        assert(s.push(d)[0] == s[0]);
+        lemma_run_snoc(push(m, s[0]), s.drop_first(), d);
+    }
+}
